@@ -189,6 +189,8 @@ def run(ctx):
     shards = [{'shard': i, 'n': n} for i in range(common.NCPU)]
     results = common.run_shards('checks.c07', shards, timeout=3000)
     common.merge_shards(ctx, results)
+    from checks import c07_real
+    c07_real.run(ctx)
     ctx.rule = (
         'gen_lex trees (depth<=6, tokens up to 200 chars, hyphens, literals '
         'with blanks/parens/semicolons/newlines/doubled quotes, comments at '
@@ -196,7 +198,13 @@ def run(ctx):
         'random position or with one character removed, i.e. usually '
         'ill-formed) parsed by ddSMT, each rendered '
         'by the 4 real renderers; evaluations = tree x renderer; distinct '
-        'non-trivial = distinct parsed trees with >= 2 tokens')
+        'non-trivial = distinct parsed trees with >= 2 tokens.  Part (ii): '
+        'real runs (3 strategies, -j 1/2/4, 3 output formats, only the '
+        'structure-removing mutators) on texts with characters outside '
+        'ASCII in comments, literals and quoted symbols: every file handed '
+        'to the command and every state of the output file must lex, have '
+        'the leaves of the tree ddSMT holds for it, and be a subsequence of '
+        'the leaves of the input')
     ctx.assumptions = [
         'vlib.refreader is the token oracle',
         'comments compared modulo trailing line end; CR never used as '
@@ -214,6 +222,16 @@ def replay(data):
     scratch = common.scratch_dir('c07r')
     for c in data['cases']:
         w = c['witness']
+        if 'rules' in w:
+            from checks import c07_real
+            from vlib import realrun
+            run = realrun.run_ddsmt(
+                os.path.join(scratch, 'real'), w['input'], w['rules'],
+                opts=w['opts'],
+                launcher={'monitors': ['check', 'write'],
+                          'check_filetext': True, 'write_text': True})
+            c07_real.judge(res, run, w['input'], w)
+            continue
         text = refreader.render(w['tree'])
         exprs = list(ns.nodeio.parse_smtlib(text))
         check_tree(ns, res, exprs, os.path.join(scratch, 'o.smt2'), 'replay')
